@@ -29,10 +29,12 @@ ASSUMPTIONS = [
     "recv() never blocks: an exhausted stream raises socket.timeout",
 ]
 FLOORS = {
-    "quick": {"segmented-executions": 30000, "segmented-executions-with-client-debug": 8000, "cut-inside-literal": 3000, "streams": 150,
+    "quick": {"segmented-executions": 30000, "segmented-executions-with-client-debug": 8000,
+              "segmented-executions-over-tls": 15000, "cut-inside-literal": 3000, "streams": 150,
               "boundary-streams-exact-multiple-of-read-size": 12},
     "thorough": {"segmented-executions": 1500000,
-                 "segmented-executions-with-client-debug": 300000, "cut-inside-literal": 100000,
+                 "segmented-executions-with-client-debug": 300000,
+                 "segmented-executions-over-tls": 400000, "cut-inside-literal": 100000,
                  "streams": 3000, "boundary-streams-exact-multiple-of-read-size": 12},
 }
 SHARD_TIMEOUT = {"quick": 600, "thorough": 3000}
@@ -95,11 +97,11 @@ def reply_corpus(rng, n):
 SENT = b'OK "sentinel one"\r\nNO (SENTINEL-7) "sentinel two"\r\n'
 
 
-def execute(op, args, stream, seg, connect_stream=None, debug=False):
+def execute(op, args, stream, seg, connect_stream=None, debug=False, tls=False):
     """Run op + two sentinels against `stream` under segmentation `seg`.
     -> (outcome key, unread bytes, client buffer)"""
     srv = ms.Server(users={b"user": b"pw"}, encodings="quoted")
-    sess, r = mslab.authed_session(srv, debug=debug)
+    sess, r = mslab.authed_session(srv, debug=debug, starttls=tls)
     if r != ("ret", True):
         return None
     srv.canned = [stream, b'OK "sentinel one"\r\n', b'NO (SENTINEL-7) "sentinel two"\r\n']
@@ -239,15 +241,22 @@ def run_replies(shard, res: Result, tier):
             dbg = res.counters.get("streams", 0) % 5 == 0
         except UnicodeDecodeError:
             dbg = True
-        runs = [(k, p, False) for k, p in segs] + ([(k, p, True) for k, p in segs] if dbg else [])
-        for kind, p, debug in runs:
-            got = execute(op, args, stream, mkseg(kind, p), debug=debug)
+        runs = [(k, p, False, False) for k, p in segs] + (
+            [(k, p, True, False) for k, p in segs] if dbg else [])
+        if res.counters.get("streams", 0) % 3 == 0 or len(stream) > 2000:
+            # the same stream over the TLS-wrapped transport (connect with STARTTLS): the
+            # segments are TLS records, the socket is an ssl.SSLSocket with pending()
+            runs += [(k, p, False, True) for k, p in segs]
+        for kind, p, debug, tls in runs:
+            got = execute(op, args, stream, mkseg(kind, p), debug=debug, tls=tls)
             res.count("segmented-executions")
+            if tls:
+                res.count("segmented-executions-over-tls")
             if debug:
                 res.count("segmented-executions-with-client-debug")
                 kind_l = kind
             res.observe("segmentation-kinds", kind)
-            res.case(repr((op, stream, kind, p)))
+            res.case(repr((op, stream, kind, p, debug, tls)))
             inside = kind in ("cut", "cut2") and any(a < c < e for c in p for a, e in spans)
             if inside:
                 res.count("cut-inside-literal")
@@ -261,7 +270,7 @@ def run_replies(shard, res: Result, tier):
                                ("cap/random" if kind in ("cap", "random") else
                                 "outside-literal")},
                               {"op": op, "stream": stream, "segmentation": [kind, repr(p)],
-                               "client_debug": debug,
+                               "client_debug": debug, "over_tls": tls,
                                "whole": repr(base[0])[:300], "segmented": repr(got[0])[:300]})
                 continue
             # quiescence only where the baseline itself is quiescent
@@ -384,7 +393,8 @@ def replay(witness, res: Result):
             "checkscript": ("keep;",), "deletescript": ("x",), "renamescript": ("x", "y"),
             "setactive": ("x",), "havespace": ("x", 5)}[op]
     base = execute(op, args, stream, ms.Seg())
-    got = execute(op, args, stream, mkseg(kind, p), debug=bool(witness.get("client_debug")))
+    got = execute(op, args, stream, mkseg(kind, p), debug=bool(witness.get("client_debug")),
+                  tls=bool(witness.get("over_tls")))
     print("whole    :", base[0])
     print("segmented:", got[0])
     if got[0] != base[0]:
